@@ -418,8 +418,8 @@ def correspondence(run, sel):
             I2 = Interner()
             t = case_term(s, I2)
             rc, o = coq_eval(HEADER + I2.header(), "case_code serde_env %s %s" % (TY[kind], t))
-            code = re.search(r"=\s*(\d+)", o)
-            code = int(code.group(1)) if code else None
+            codes = re.findall(r"=\s*(\d+)\s*:\s*N\b", o.replace("\n", " "))
+            code = int(codes[-1]) if codes else None
             meaning = {1: "dumped value is not well-typed in the regenerated environment", 2: "Serde.ser differs from serde_json::to_value",
                        3: "Serde.de of the document differs from the value", 4: "Serde.de of the null-dropped document differs from from_value"}.get(code, "?")
             out.append({"input": s["sql"], "dialect": s["dialect"], "value": kind, "code": code, "meaning": meaning})
